@@ -206,7 +206,7 @@ func c09SelCases(c *vctx) {
 	}
 	for _, k := range ks {
 		for shape := 0; shape < 4; shape++ {
-			if !c.thorough() && k >= 255 && !((k == 255 && shape == 1) || (k == 256 && shape != 2) || (k == 257 && shape == 2)) {
+			if !c.thorough() && k >= 255 && !((k == 255 && shape == 3) || (k == 256 && shape == 1) || (k == 257 && shape == 2)) {
 				continue
 			}
 			var es []c09Entry
@@ -228,7 +228,7 @@ func c09SelCases(c *vctx) {
 				}
 			}
 			c09Sel(c, "sel-corpus", es, used, false, 0)
-			if k <= 5 || (shape == 1 && (c.thorough() || k == 256)) {
+			if k <= 5 || (shape == 1 && c.thorough()) {
 				c09Sel(c, "sel-corpus-index", es, used, true, 2)
 			}
 		}
@@ -237,7 +237,7 @@ func c09SelCases(c *vctx) {
 	c09Sel(c, "sel-missing", []c09Entry{{pack: 1, h: 1, length: 40}, {pack: 1, h: 2, length: 41}}, []int{1, 3}, false, 0)
 	c09Sel(c, "sel-missing", []c09Entry{{pack: 1, h: 1, length: 40}}, []int{3}, true, 1)
 	c09Sel(c, "sel-empty", nil, nil, false, 0)
-	rounds := c.n(120, 3000)
+	rounds := c.n(80, 3000)
 	for r := 0; r < rounds; r++ {
 		rng := c.rng.fork()
 		np := 1 + rng.intn(6)
